@@ -1105,17 +1105,27 @@ void process_option_line(const std::string &config_line, const char *filename,
    }
    else if (cmd == "using")
    {
-      auto vargs = split_args(args[1], filename, is_varg_sep);
+      auto vargs      = split_args(args[1], filename, is_varg_sep);
+      bool is_version = (  vargs.size() == 2
+                        || vargs.size() == 3);
+      int  parts[3] = { 0, 0, 0 };
 
-      if (vargs.size() == 2)
+      for (size_t i = 0; is_version && i < vargs.size(); ++i)
       {
-         compat_level = option_level(std::stoi(vargs[0]), std::stoi(vargs[1]));
+         // only plain, small decimal numbers: std::stoi() would throw on anything else
+         is_version = (  !vargs[i].empty()
+                      && vargs[i].size() <= 4
+                      && vargs[i].find_first_not_of("0123456789") == std::string::npos);
+
+         if (is_version)
+         {
+            parts[i] = std::stoi(vargs[i]);
+         }
       }
-      else if (vargs.size() == 3)
+
+      if (is_version)
       {
-         compat_level = option_level(std::stoi(vargs[0]),
-                                     std::stoi(vargs[1]),
-                                     std::stoi(vargs[2]));
+         compat_level = option_level(parts[0], parts[1], parts[2]);
       }
       else
       {
